@@ -1,6 +1,7 @@
 package props
 
 import (
+	"go/token"
 	"go/types"
 	"sort"
 	"strings"
@@ -172,6 +173,7 @@ func runC17(c *Ctx) {
 	ruleShapePairs(c, p, rule, pairs, false)
 
 	ruleGates(c, p, pairs, "C17.gates")
+	ruleBitFlags(c, p, pairs, "C17.flags")
 
 	// ---- C17.fieldorder
 	rule = "C17.fieldorder"
@@ -359,47 +361,47 @@ func fieldsTouched(root *ssa.Function, tname string, write bool) map[string]bool
 		}
 	}
 	for _, fn := range fns {
-	for _, b := range fn.Blocks {
-		for _, in := range b.Instrs {
-			switch x := in.(type) {
-			case *ssa.FieldAddr:
-				n := core.NamedOf(x.X.Type())
-				if n == nil || n.Obj().Name() != tname {
-					continue
-				}
-				name := fieldNameOnly(x.X.Type(), x.Field)
-				isW, isR := false, false
-				for _, r := range *x.Referrers() {
-					switch y := r.(type) {
-					case *ssa.Store:
-						if y.Addr == x {
-							isW = true
-						} else {
+		for _, b := range fn.Blocks {
+			for _, in := range b.Instrs {
+				switch x := in.(type) {
+				case *ssa.FieldAddr:
+					n := core.NamedOf(x.X.Type())
+					if n == nil || n.Obj().Name() != tname {
+						continue
+					}
+					name := fieldNameOnly(x.X.Type(), x.Field)
+					isW, isR := false, false
+					for _, r := range *x.Referrers() {
+						switch y := r.(type) {
+						case *ssa.Store:
+							if y.Addr == x {
+								isW = true
+							} else {
+								isR = true
+							}
+						case *ssa.DebugRef:
+						default:
 							isR = true
-						}
-					case *ssa.DebugRef:
-					default:
-						isR = true
-						// address passed to a call (e.g. q.Info.DecodeAware): counts as both
-						if _, ok := r.(ssa.CallInstruction); ok {
-							isW = true
+							// address passed to a call (e.g. q.Info.DecodeAware): counts as both
+							if _, ok := r.(ssa.CallInstruction); ok {
+								isW = true
+							}
 						}
 					}
-				}
-				if write && isW || !write && isR {
-					out[name] = true
-				}
-			case *ssa.Field:
-				n := core.NamedOf(x.X.Type())
-				if n == nil || n.Obj().Name() != tname {
-					continue
-				}
-				if !write {
-					out[fieldNameOnly(x.X.Type(), x.Field)] = true
+					if write && isW || !write && isR {
+						out[name] = true
+					}
+				case *ssa.Field:
+					n := core.NamedOf(x.X.Type())
+					if n == nil || n.Obj().Name() != tname {
+						continue
+					}
+					if !write {
+						out[fieldNameOnly(x.X.Type(), x.Field)] = true
+					}
 				}
 			}
 		}
-	}
 	}
 	return out
 }
@@ -661,4 +663,99 @@ func ruleGates(c *Ctx, p *core.Program, pairs []msgPair, rule string) {
 	}
 	c.R.Count("gates in message codecs", nG)
 
+}
+
+// ruleBitFlags (C17.flags): bit-flag bytes are written and read with the same single-bit masks.
+func ruleBitFlags(c *Ctx, p *core.Program, pairs []msgPair, rule string) {
+	c.R.Rule(rule, "table extraction: for every message whose encoder builds a flags word by OR-ing constants under tests of boolean fields and whose decoder assigns boolean fields from `word & constant != 0`, the field -> mask tables of the two sides are equal, every mask has exactly one bit set and no two fields share a bit - otherwise a flag written alone reads back as a combination of others")
+	cfg := p.Cfg.Name
+	n := 0
+	for _, mp := range pairs {
+		enc, dec := map[string]int64{}, map[string]int64{}
+		for _, b := range mp.enc.Blocks {
+			for _, in := range b.Instrs {
+				bo, ok := in.(*ssa.BinOp)
+				if !ok || bo.Op != token.OR {
+					continue
+				}
+				k, okc := core.ConstInt(bo.Y)
+				if !okc {
+					continue
+				}
+				// the field whose test guards this block
+				for _, pred := range b.Preds {
+					ifi, ok := pred.Instrs[len(pred.Instrs)-1].(*ssa.If)
+					if !ok || pred.Succs[0] != b {
+						continue
+					}
+					if f := accessPath(ifi.Cond, 0); strings.HasPrefix(f, "recv.") {
+						enc[strings.TrimPrefix(f, "recv.")] = k
+					}
+				}
+			}
+		}
+		for _, b := range mp.dec.Blocks {
+			for _, in := range b.Instrs {
+				st, ok := in.(*ssa.Store)
+				if !ok {
+					continue
+				}
+				ne, ok := st.Val.(*ssa.BinOp)
+				if !ok || ne.Op != token.NEQ {
+					continue
+				}
+				and, ok := ne.X.(*ssa.BinOp)
+				if !ok || and.Op != token.AND {
+					continue
+				}
+				k, okc := core.ConstInt(and.Y)
+				if z, okz := core.ConstInt(ne.Y); !okc || !okz || z != 0 {
+					continue
+				}
+				if f := accessPath(st.Addr, 0); strings.HasPrefix(f, "recv.") {
+					dec[strings.TrimPrefix(f, "recv.")] = k
+				}
+			}
+		}
+		if len(enc) == 0 && len(dec) == 0 {
+			continue
+		}
+		n++
+		key := "flags/" + mp.name
+		var probs []string
+		used := map[int64]string{}
+		var names []string
+		for f := range enc {
+			names = append(names, f)
+		}
+		for f := range dec {
+			if _, ok := enc[f]; !ok {
+				names = append(names, f)
+			}
+		}
+		sort.Strings(names)
+		for _, f := range names {
+			e, okE := enc[f]
+			d, okD := dec[f]
+			switch {
+			case !okE || !okD:
+				probs = append(probs, sprintf("%s has a mask on one side only", f))
+			case e != d:
+				probs = append(probs, sprintf("%s written with %#x, read with %#x", f, e, d))
+			case e <= 0 || e&(e-1) != 0:
+				probs = append(probs, sprintf("mask of %s (%#x) is not a single bit", f, e))
+			case used[e] != "":
+				probs = append(probs, sprintf("%s and %s share mask %#x", used[e], f, e))
+			}
+			if okE {
+				used[e] = f
+			}
+		}
+		if len(probs) > 0 {
+			c.R.Bad(rule, key, cfg, p.Pos(mp.enc.Pos()), strings.Join(probs, "; "))
+		} else {
+			c.R.Ok(rule, key, cfg, p.Pos(mp.enc.Pos()), sprintf("%d single-bit masks, same on both sides", len(names)))
+		}
+	}
+	c.R.Floor(rule, cfg, n, 1)
 }
